@@ -314,3 +314,30 @@ def message_exact(n, enc='latin_1'):
     b = iso8583.dumps(dict(m), encoding=enc)
     assert len(b) == n, (n, len(b))
     return m
+
+
+# ------------------------------------------------------------------ reverse projection (replay files)
+
+def unkey(k):
+    kind, n, t = k['kind'], k['n'], ''.join(chr(c) for c in k['s'])
+    return {'MTI': 'MTI', 'ICC_DATA': 'ICC_DATA'}.get(kind) or {'DE': 'DE%d' % n, 'DE43': 'DE43_' + t, 'PDS': 'PDS' + t,
+                                                              'TAG': 'TAG' + t}.get(kind, t)
+
+
+def unval(v):
+    t, x = v['t'], v['v']
+    if t == 's':
+        return ''.join(chr(c) for c in x)
+    if t in ('i', 'ineg'):
+        return int(''.join(chr(c) for c in x)) * (-1 if t == 'ineg' else 1)
+    if t == 'b':
+        return bytes(x)
+    if t == 'dt':
+        return datetime.datetime(*x)
+    if t == 'dec':
+        return decimal.Decimal(int(''.join(chr(c) for c in x[1:]) or '0')).scaleb(-x[0])
+    return None
+
+
+def undict(entries):
+    return {unkey(e['k']): unval(e['v']) for e in entries}
